@@ -341,7 +341,13 @@ func Generate(r *rand.Rand, sz Size) *Model {
 			if strings.HasPrefix(p, "{") && !definedPrefix[pre] && r.Intn(2) == 0 {
 				definedPrefix[pre] = true
 				var v *S
-				if r.Intn(2) == 0 {
+				if r.Intn(3) == 0 {
+					// any scalar the schema language has: enums by name, user types, unions, formats ...
+					v = g.scalar(false)
+					for v.K == "ref" || v.K == "or" {
+						v = g.scalar(false) // a reference may lead to an object: "the multi-level property is not allowed in the Path directive"
+					}
+				} else if r.Intn(2) == 0 {
 					v = &S{K: "int", Lit: fmt.Sprint(1 + r.Intn(99)), Note: g.note()}
 					if r.Intn(2) == 0 {
 						v.Rules = []Rule{{Name: "min", Val: "1"}}
